@@ -137,7 +137,8 @@ def _compdb(scratch, extra_defs=(), cmake_defs=()):
         keep = [x for x in a[1:] if x.startswith(('-D', '-I', '-std=', '-U', '-isystem'))]
         if not any(x.startswith('-std=') for x in keep):
             keep.append('-std=gnu++20')
-        keep += ['-UNDEBUG', '-D' + GUARD] + ['-D' + d for d in extra_defs]
+        # release builds (the baseline is RelWithDebInfo) compile assert() away: analyse what ships
+        keep += ['-DNDEBUG', '-D' + GUARD] + ['-D' + d for d in extra_defs]
         flags = flags or keep
         out.append({'directory': scratch, 'file': f,
                     'arguments': ['clang++'] + keep + ['-resource-dir=' + RESOURCE_DIR, '-fsyntax-only', '-w', f]})
